@@ -245,11 +245,14 @@ class Server:
           in the servlet will eventually see the sentinel and exit.
         - Wait for the servlet and all helper threads to exit.
         """
-        self.servlet.stop()
-        self._gather_thread.join()
         if self._onboard_thread is not None:
+            # Let the accepted inputs (e.g. of an abandoned stream) flow into the
+            # pipeline ahead of the sentinel; otherwise the workers may exit first
+            # and this thread would block forever on a full pipe.
             self._input_buffer.put(None)
             self._onboard_thread.join()
+        self.servlet.stop()
+        self._gather_thread.join()
 
     def call(self, x, /, *, timeout: int | float = 60, backpressure: bool = True):
         """
@@ -517,6 +520,9 @@ class AsyncServer:
         return self
 
     async def __aexit__(self, *args):
+        if self._onboard_thread is not None:
+            self._input_buffer.put(None)
+            self._onboard_thread.join()
         self.servlet.stop()
         self._gather_thread.join()
 
@@ -534,10 +540,6 @@ class AsyncServer:
                     await asyncio.wait_for(pipenotfull.wait(), 0.01)
                 except asyncio.TimeoutError:
                     pass
-
-        if self._onboard_thread is not None:
-            self._input_buffer.put(None)
-            self._onboard_thread.join()
 
     async def call(self, x, /, *, timeout: int | float = 60, backpressure: bool = True):
         """
